@@ -311,6 +311,8 @@ pub struct World {
     /// first packet id of new Shadowsocks 2022 datagram sessions (client side, server side); None = the code's own 0.
     /// Lets a run start a session a few ids before 2^64, where "a session ends rather than reuse a packet id" decides
     pub initial_packet_id: (Option<u64>, Option<u64>),
+    /// one-way black hole: datagrams whose *destination* port is listed are lost (a peer that sends but never hears)
+    pub udp_drop_to_ports: Vec<u16>,
     pub udp_hold_ports: Vec<u16>,
     pub udp_held: Vec<(SocketAddr, SocketAddr, Vec<u8>)>,
     pub dump_events: bool,
@@ -344,6 +346,7 @@ impl World {
             first_atomic_ports: Vec::new(),
             udp_capture: None,
             initial_packet_id: (None, None),
+            udp_drop_to_ports: Vec::new(),
             udp_hold_ports: Vec::new(),
             udp_held: Vec::new(),
             dump_events: std::env::var_os("VERIF_EVLOG").is_some(),
